@@ -39,6 +39,7 @@ type Contract struct {
 	Asserts     []CallAssert
 	Locals      map[string]string // local alias -> "name#ordinal"
 	MayPanic    bool
+	NoTypeInv   bool              // the method neither needs nor re-establishes the receiver's type invariant (String(), ...)
 	NilableRecv bool              // the method tolerates a nil receiver (no call-site obligation, no entry assumption)
 	Nilable     map[string]bool   // parameters of func/interface type that may be nil
 	File        string
@@ -56,6 +57,8 @@ type ContractDB struct {
 	preds  map[string]*PredDef
 	files  []string
 	axioms []*Clause // definitional axioms of spec functions (listed in evidence)
+	pureFns     map[string]bool // dependency functions (by ssa String()) that neither modify go-restli objects nor depend on anything but their arguments
+	closedTerms map[string]bool // "pkg.Var": evaluated by running the real initialiser
 	effectFns  map[string]bool // dependency functions with externally visible effects: every call needs a call-site assert
 	effectPkgs map[string]bool // packages all of whose functions are effectful unless listed as observers
 	observers  map[string]bool
@@ -78,7 +81,7 @@ type PredDef struct {
 }
 
 func newContractDB() *ContractDB {
-	return &ContractDB{byFunc: map[string]*Contract{}, preds: map[string]*PredDef{}, specFn: map[string]*SpecFn{}, typeinv: map[string][]*Clause{}, pureFields: map[string]bool{}, pureIface: map[string]bool{}, effectFns: map[string]bool{}, effectPkgs: map[string]bool{}, observers: map[string]bool{}}
+	return &ContractDB{byFunc: map[string]*Contract{}, preds: map[string]*PredDef{}, specFn: map[string]*SpecFn{}, typeinv: map[string][]*Clause{}, pureFields: map[string]bool{}, pureIface: map[string]bool{}, effectFns: map[string]bool{}, closedTerms: map[string]bool{}, pureFns: map[string]bool{}, effectPkgs: map[string]bool{}, observers: map[string]bool{}}
 }
 
 func splitTags(kw string) (string, []string) {
@@ -180,6 +183,14 @@ func (db *ContractDB) load(path string) error {
 				}
 			}
 			db.specFn[sf.Name] = sf
+		case "purefn":
+			for _, n := range strings.Fields(rest) {
+				db.pureFns[n] = true
+			}
+		case "closedterm":
+			for _, n := range strings.Fields(rest) {
+				db.closedTerms[n] = true
+			}
 		case "effect":
 			for _, n := range strings.Fields(rest) {
 				db.effectFns[n] = true
@@ -224,10 +235,21 @@ func (db *ContractDB) load(path string) error {
 			cur.Ensures = append(cur.Ensures, parse(rest))
 		case "assert":
 			need()
-			head, ex, _ := strings.Cut(rest, ":")
+			hashAt := strings.Index(rest, "#")
+			if hashAt < 0 {
+				panic(fmt.Sprintf("%s:%d: assert needs @call NAME#N:", path, ln))
+			}
+			colon := strings.Index(rest[hashAt:], ":")
+			if colon < 0 {
+				panic(fmt.Sprintf("%s:%d: assert needs @call NAME#N: expr", path, ln))
+			}
+			head, ex := rest[:hashAt+colon], rest[hashAt+colon+1:]
 			head = strings.TrimSpace(strings.TrimPrefix(strings.TrimSpace(head), "@call"))
 			nm, ord, _ := strings.Cut(head, "#")
 			n, _ := strconv.Atoi(strings.TrimSpace(ord))
+			if strings.TrimSpace(ord) == "*" {
+				n = -1
+			}
 			cur.Asserts = append(cur.Asserts, CallAssert{strings.TrimSpace(nm), n, parse(strings.TrimSpace(ex))})
 		case "pure":
 			need()
@@ -235,6 +257,9 @@ func (db *ContractDB) load(path string) error {
 		case "may_panic":
 			need()
 			cur.MayPanic = true
+		case "no_typeinv":
+			need()
+			cur.NoTypeInv = true
 		case "nilable_receiver":
 			need()
 			cur.NilableRecv = true
@@ -308,6 +333,9 @@ func (db *ContractDB) load(path string) error {
 // typeInvFor returns the type invariants that apply to fn (a method whose receiver type has a typeinv).
 func (db *ContractDB) typeInvFor(name string) []*Clause {
 	if !strings.HasPrefix(name, "(") {
+		return nil
+	}
+	if c := db.byFunc[name]; c != nil && c.NoTypeInv {
 		return nil
 	}
 	i := strings.Index(name, ").")
